@@ -468,7 +468,7 @@ def main(tier, replay):
                     stats.setdefault("sender_prims", {})[f[1]] = int(f[2])
                 elif f[0].startswith("MISMATCH"):
                     mism.append(f)
-                elif f[0] in ("INVARIANT", "TRUTH-NOT-WF"):
+                elif f[0] in ("INVARIANT", "TRUTH-NOT-WF", "HISTORY"):
                     invs.append(f)
             seqs = read_seqs(trace)
             del trace
@@ -520,6 +520,7 @@ def main(tier, replay):
                 v.violation({"kind": "property-oracle", "oracle": "C09_converges(invariant of the proof holds in the reached state)",
                              "case": [m[1], int(m[2]), idx + 1 if idx >= 0 else -1], "operation": " ".join(m[4:6]),
                              "what": ("the cache content after this operation violates the invariant cinv relative to the ground truth: " + " ".join(m[6:7])) if m[0] == "INVARIANT"
+                                     else ("the region states reported by PD / the stores in this sequence break the epoch discipline relative to the final ground truth (hist_okb false): " + " ".join(m[6:7])) if m[0] == "HISTORY"
                                      else "the ground truth at a quiescent point is not a partition into led regions (truth_wfb false)",
                              "state": m[7:8], "trace": seq_excerpt(sq, idx if idx >= 0 else 10 ** 9) if sq else []})
             if mism and not [f for f in fails if not f["finding_class"]]:
@@ -547,13 +548,13 @@ def main(tier, replay):
                     "rounds; PD answers from stale snapshots with probability 0/0.25/0.5; distinct = distinct (op,args,PD answers,result,index) among operations "
                     "that touch PD or the merger",
                samples=samples, traces_validated_against_impl=mstats.get("cases", 0), input_distribution=classes,
-               sequences=mstats.get("seqs", 0), store_replies_compared=mstats.get("replies", 0), invariant_states_checked=mstats.get("inv_checked", 0), invariant_failures=len(invs), truth_wf_checked=mstats.get("wf_checked", 0), model_mismatches=len(mism), oracle_failures=len([f for f in fails if not f["finding_class"]]),
+               sequences=mstats.get("seqs", 0), store_replies_compared=mstats.get("replies", 0), invariant_states_checked=mstats.get("inv_checked", 0), invariant_failures=len(invs), truth_wf_checked=mstats.get("wf_checked", 0), histories_checked=mstats.get("hist_checked", 0), history_states=mstats.get("hist_states", 0), model_mismatches=len(mism), oracle_failures=len([f for f in fails if not f["finding_class"]]),
                known_finding_hits=len([f for f in fails if f["finding_class"]]), bucket_lookups=stats.get("bucket_lookups", 0), stuck_rounds=stats.get("stuck_rounds", 0), sender_convergences=stats.get("sender_convs", 0), sender_effects_explained=stats.get("sender_prims", {}), observations={"bucket_fallback_unclamped": stats.get("obs_bucket_fallback_unclamped", 0)},
                convergence_rounds={str(k): n for k, n in sorted(stats["conv_rounds"].items())}, convergence_bound=CONV_BOUND)
     rc = v.finish()
     vlib.write_evidence(PID, cov, t0, violations=len(v.violations), level="proof",
                         assumptions=["PD answers a key lookup with a region containing the key (possibly stale epoch/leader); a prev-region answer ends at the asked key",
                                      "key ranges handed to the batch APIs are sorted and disjoint (API contract)",
-                                     "convergence: epochs behave as in TiKV (a newer description of overlapping keys never has a smaller version), "
+                                     "convergence: epochs behave as in TiKV (a newer description of overlapping keys never has a smaller version; hist_ok — checked by the extracted hist_okb on everything PD and the stores report in a run), "
                                      "topology and PD answers no longer change, every region has a leader on a running store"])
     return rc
